@@ -69,11 +69,15 @@ class RayFan:
 
         for k, field in enumerate(self.fields):
             for wavelength in self.wavelengths:
-                ex = self.data[f'{field}'][f'{wavelength}']['x']
+                # vignetted rays are hidden in the plot only: mask copies, not
+                # the stored data
+                ex = np.array(self.data[f'{field}'][f'{wavelength}']['x'],
+                              dtype=float)
                 i_x = self.data[f'{field}'][f'{wavelength}']['intensity_x']
                 ex[i_x == 0] = np.nan
 
-                ey = self.data[f'{field}'][f'{wavelength}']['y']
+                ey = np.array(self.data[f'{field}'][f'{wavelength}']['y'],
+                              dtype=float)
                 i_y = self.data[f'{field}'][f'{wavelength}']['intensity_y']
                 ey[i_y == 0] = np.nan
 
